@@ -70,6 +70,18 @@ class AwareDT(datetime.datetime):
     """A datetime subclass (as pandas.Timestamp, pendulum.DateTime are)."""
 
 
+# names that earlier documents of this process handed out (record identifiers as resolved by their containers): an application keeps
+# such objects -- constants, look-up tables -- and uses them again with later documents, long after the first document has died
+NAME_POOL = {}
+
+
+def _remember_name(q):
+    if isinstance(q, QualifiedName):
+        if len(NAME_POOL) > 3000:
+            NAME_POOL.clear()
+        NAME_POOL[q.uri] = q
+
+
 def _pick(text, modulo):
     import zlib
     return zlib.crc32(text.encode("utf-8")) % modulo
@@ -110,6 +122,10 @@ class State:
             how = _pick("%s|%s|%s" % (spec["prefix"], spec["ns"], local), 40)
             if how < 10:
                 return QualifiedName(ns, local)        # minted directly: another object than ns[local] hands out
+            if 12 <= how <= 17:
+                old = NAME_POOL.get(spec["ns"] + local)
+                if old is not None:
+                    return old                              # the same name as an earlier (possibly dead) document resolved it
             if how == 10:
                 return SubQN(ns, local)
             if how == 11 and spec.get("odd"):
@@ -306,6 +322,7 @@ def exec_op(st, op):
             rec = b.new_record(REC_TYPES[kind], ident, [(PROV[f], v) for f, v in fargs.items()], ex)
         if rec is not None:
             st.recs[label] = rec
+            _remember_name(getattr(rec, "identifier", None))
         return rec
     if k == "attrs":
         rec = st.recs.get(op[1])
